@@ -38,13 +38,14 @@ def batched(f, A, outnd):
 
 
 class Interp:
-    def __init__(self, sp, intercept=None, literal_hook=None, series=None):
+    def __init__(self, sp, intercept=None, literal_hook=None, series=None, scan_hook=None):
         self.sp = sp
         self.count = {}
         self.intercept = dict(intercept or {})
         self.literal_hook = literal_hook      # concrete literal/const array -> symbolic array or None
         self.series = series                  # optional power-series helper (C04/C05)
         self.calls = []                       # names of jit callees seen (for the evidence)
+        self.scan_hook = scan_hook            # optional: callable(interp, eqn, ins) -> outputs or None (loop contracts)
 
     # ------------------------------------------------------------------ driver
     def run(self, jaxpr, consts, args):
@@ -65,6 +66,9 @@ class Interp:
             if not isinstance(outs, (list, tuple)):
                 outs = [outs]
             for v, o in zip(e.outvars, outs):
+                if hasattr(v, "aval") and hasattr(v.aval, "shape") and tuple(np.shape(o)) != tuple(v.aval.shape):
+                    raise Unsupported(f"engine shape check: primitive '{e.primitive.name}' ({e.params.get('name', '')}) produced shape "
+                                      f"{np.shape(o)} where JAX expects {tuple(v.aval.shape)}")
                 env[v] = o
         return [read(v) for v in jaxpr.outvars]
 
@@ -185,6 +189,10 @@ class Interp:
             base = np.arange(n).reshape([-1 if i == P["dimension"] else 1 for i in range(len(P["shape"]))])
             return (base * np.ones(P["shape"], dtype=int)).astype(np.dtype(P["dtype"]))
         if p == "scan":
+            if self.scan_hook is not None:
+                r = self.scan_hook(self, e, ins)
+                if r is not None:
+                    return r
             return self.scan(e, ins)
         if p == "while":
             return self.while_(e, ins)
@@ -438,7 +446,7 @@ def trace(fn, *example_args, **kw):
     return closed, out_shape
 
 
-def evaluate(sp, fn, sym_args, example_args, intercept=None, literal_hook=None, series=None):
+def evaluate(sp, fn, sym_args, example_args, intercept=None, literal_hook=None, series=None, scan_hook=None):
     """Trace fn at example_args (pytrees of concrete arrays giving shapes/dtypes) and interpret the jaxpr with the
     leaves replaced by sym_args (same pytree structure; leaves: object arrays or concrete arrays).
     Returns (pytree of results, interpreter)."""
@@ -451,7 +459,7 @@ def evaluate(sp, fn, sym_args, example_args, intercept=None, literal_hook=None, 
     for s, x in zip(flat_sym, flat_ex):
         if tuple(np.shape(s)) != tuple(np.shape(x)):
             raise Unsupported(f"shape mismatch between symbolic {np.shape(s)} and example {np.shape(x)} argument")
-    it = Interp(sp, intercept=intercept, literal_hook=literal_hook, series=series)
+    it = Interp(sp, intercept=intercept, literal_hook=literal_hook, series=series, scan_hook=scan_hook)
     outs = it.run(closed.jaxpr, closed.consts, flat_sym)
     out_tree = jax.tree_util.tree_structure(out_shape)
     return jax.tree_util.tree_unflatten(out_tree, outs), it
